@@ -180,19 +180,30 @@ api_mul(unsigned char *G, size_t Glen,
 	uint32_t a[10], aa[10], b[10], bb[10];
 	uint32_t c[10], d[10], e[10], da[10], cb[10];
 	unsigned char k[32];
-	uint32_t swap;
+	uint32_t swap, kz;
 	int i;
 
 	(void)curve;
 
 	/*
 	 * Points are encoded over exactly 32 bytes. Multipliers must fit
-	 * in 32 bytes as well.
+	 * in 32 bytes as well (not counting leading bytes of value zero).
 	 * RFC 7748 mandates that the high bit of the last point byte must
 	 * be ignored/cleared.
 	 */
-	if (Glen != 32 || kblen > 32) {
+	if (Glen != 32) {
 		return 0;
+	}
+
+	/*
+	 * The unsigned big-endian encoding of the multiplier may use
+	 * extra leading bytes of value zero, as with the other curves.
+	 */
+	kz = 0;
+	while (kblen > 32) {
+		kz |= *kb;
+		kb ++;
+		kblen --;
 	}
 	G[31] &= 0x7F;
 
@@ -341,7 +352,7 @@ api_mul(unsigned char *G, size_t Glen,
 
 	br_i31_encode(G, 32, x2);
 	byteswap(G);
-	return 1;
+	return EQ(kz, 0);
 }
 
 static size_t
